@@ -358,6 +358,7 @@ class Interp:
         # optional observers (taint / sink rules): called with the live state so that the path condition is visible
         self.assume_full_reads = False  # a stream.read(n) with constant n > 0 returns n bytes (well-formed input)
         self.inline_setters = False   # inline property setters of self_cls on `self.<prop> = v`
+        self.index_errors = False     # an out-of-range constant index / pop on an interpreter list ends the path with a raise IndexError exit
         self.obs_store = None  # fn(target_term, value, st, node)      attribute / subscript stores
         self.obs_exit = None   # fn(kind, value, st, node)              return / raise
         self.obs_call = None   # fn(name, base_term|None, args, kwargs, st, node)   every call evaluated
@@ -937,7 +938,10 @@ class Interp:
         if isinstance(base, (list, tuple, bytes, str, dict, range)) and is_conc(idx):
             try:
                 return base[idx]
-            except Exception:
+            except Exception as exc:
+                if self.index_errors and isinstance(exc, IndexError) and isinstance(base, list):
+                    self._exit('raise', st, S(('call', 'IndexError', (), ())), node)
+                    raise _AlwaysRaises()
                 raise AnalysisError('constant subscript fails at line %s' % getattr(node, 'lineno', '?'))
         key = ('index', term(base), term(idx))
         if key in st.heap:
@@ -1355,7 +1359,8 @@ class Interp:
         if is_conc(base) and all(is_conc(a) for a in args) and not kwargs and isinstance(base, (bytes, str, int, list, dict, tuple)):
             if name in ('hex', 'to_bytes', 'lower', 'upper', 'encode', 'decode', 'join', 'startswith', 'endswith', 'split',
                         'strip', 'index', 'count', 'get', 'keys', 'values', 'items', 'bit_length', 'rjust', 'ljust', 'zfill',
-                        'replace', 'find', 'isdigit', 'copy'):
+                        'replace', 'find', 'isdigit', 'copy', 'rfind', 'rindex', 'lstrip', 'rstrip', 'isalpha', 'isalnum', 'islower', 'isupper',
+                        'rsplit', 'partition', 'rpartition', 'splitlines', 'swapcase', 'isascii', 'isspace', 'title', 'capitalize', 'casefold'):
                 try:
                     r = getattr(base, name)(*args)
                     if name in ('keys', 'values', 'items'):
@@ -1373,10 +1378,13 @@ class Interp:
             if name == 'insert' and len(args) == 2 and is_conc(args[0]):
                 base.insert(args[0], args[1])
                 return None
-            if name == 'pop' and all(is_conc(a) for a in args) and base:
+            if name == 'pop' and all(is_conc(a) for a in args) and (base or self.index_errors):
                 try:
                     return base.pop(*args)
-                except Exception:
+                except Exception as exc:
+                    if self.index_errors and isinstance(exc, IndexError):
+                        self._exit('raise', st, S(('call', 'IndexError', (), ())), node)
+                        raise _AlwaysRaises()
                     raise AnalysisError('pop from list fails')
             if name == 'index' and len(args) == 1:
                 for i, x in enumerate(base):
